@@ -153,6 +153,16 @@ def roundtrip(ctx, entries_m, case, kind):
         ctx.violation('roundtrip-differs', 'load(dump(E)) != E', case,
                       {'text': text, 'want': want, 'got': back})
         return False
+    # ... and equal by the library's own notion of equality
+    reloaded = list(g_load(text))
+    ctx.count('native_equality_checks')
+    for a, b in zip(eg, reloaded):
+        if not (a == b) or not (b == a):
+            ctx.violation('roundtrip-not-equal:' + a.tag,
+                          'entry read back does not compare equal (==) to the entry '
+                          'written: %r vs %r' % (a.to_list(), getattr(a, 'ts', None)),
+                          case, {'text': text})
+            return False
     return True
 
 
